@@ -13,7 +13,10 @@ KINDS = [
     'TableBox', 'InlineTableBox', 'TableRowGroupBox', 'TableRowBox', 'TableColumnGroupBox', 'TableColumnBox',
     'TableCellBox', 'TableCaptionBox', 'FlexBox', 'InlineFlexBox', 'GridBox', 'InlineGridBox']
 WS_VALUES = ['normal', 'nowrap', 'pre', 'pre-wrap', 'pre-line']
-ATTR_VALUES = [None, None, None, '1', '2', '3', '4', '0', ' 2 ', '-1', 'x', '', '1.5', '02']
+ATTR_VALUES = [None, None, None, '1', '2', '3', '4', '0', ' 2 ', '-1', 'x', '', '1.5', '02', '70']
+
+
+TT_LETTERS = {'c': 'capitalize', 'u': 'uppercase', 'l': 'lowercase', 'w': 'full-width'}
 
 
 def initial_values():
@@ -44,8 +47,11 @@ def style_from(letters, ws):
         style['position'] = 'absolute'
     if 'r' in letters:
         style['position'] = ('running()', 'x')
-    if 'c' in letters:
-        style['text_transform'] = 'capitalize'
+    for letter, value in TT_LETTERS.items():
+        if letter in letters:
+            style['text_transform'] = value
+    if 'y' in letters:
+        style['hyphens'] = 'none'
     if 'h' in letters:
         style['display'] = ('table-header-group',)
     if 't' in letters:
@@ -106,8 +112,6 @@ def style_letters(style):
         out += 'a'
     if style['position'][0] == 'running()':
         out += 'r'
-    if style['text_transform'] == 'capitalize':
-        out += 'c'
     if style['display'] == ('table-header-group',):
         out += 'h'
     if style['display'] == ('table-footer-group',):
@@ -116,6 +120,11 @@ def style_letters(style):
         out += 'b'
     if isinstance(style, AnonymousStyle):
         out += 'A'
+    for letter, value in TT_LETTERS.items():
+        if style['text_transform'] == value:
+            out += letter
+    if style['hyphens'] == 'none':
+        out += 'y'
     return out or '-'
 
 
@@ -255,3 +264,22 @@ def parse_attr_raw(raw, floor):
         return max(int(raw.strip()), floor)
     except ValueError:
         return 1
+
+
+def count_ser(ser_box):
+    """Number of boxes of a serialised tree."""
+    return 1 + sum(count_ser(k) for k in ser_box[6]) + sum(count_ser(k) for k in ser_box[7])
+
+
+def texts_of_ser(ser_box, out=None):
+    """Texts of the text boxes of a serialised tree."""
+    out = [] if out is None else out
+    if ser_box[0] == 'TextBox':
+        out.append(''.join(chr(c) for c in ser_box[5]))
+    for k in ser_box[6]:
+        texts_of_ser(k, out)
+    return out
+
+
+def kind_count_ser(ser_box, kind):
+    return (ser_box[0] == kind) + sum(kind_count_ser(k, kind) for k in ser_box[6])
